@@ -78,6 +78,8 @@ pub struct Func {
     pub ret: Ty,
     pub star_args: Option<Ty>,
     pub recursive_depth: bool, // first parameter is a decreasing depth
+    /// Parameters from this index on are keyword-only (they follow a bare `*`).
+    pub kwonly_from: Option<usize>,
 }
 
 #[derive(Clone, Copy, PartialEq, Debug)]
@@ -640,7 +642,9 @@ impl<'a, 'c> Gen<'a, 'c> {
                     self.paren(e)
                 }
                 2 => {
-                    let a = self.expr(&Ty::Str, d, flow);
+                    // repetition multiplies the size: only variable-free operands (a loop would otherwise grow it
+                    // geometrically)
+                    let a = self.expr(&Ty::Str, d, false);
                     let n = self.small_int_lit(-1, 3);
                     if self.ch.bool() { format!("({a} * {n})") } else { format!("({n} * {a})") }
                 }
@@ -693,7 +697,7 @@ impl<'a, 'c> Gen<'a, 'c> {
                         self.paren(e)
                     }
                     3 => {
-                        let a = self.expr(ty, d, flow);
+                        let a = self.expr(ty, d, false);
                         let n = self.small_int_lit(-1, 3);
                         format!("({a} * {n})")
                     }
@@ -1014,7 +1018,8 @@ impl<'a, 'c> Gen<'a, 'c> {
 
     fn call_expr(&mut self, ty: &Ty, d: u32, flow: bool) -> String {
         let fs = self.funcs_returning(ty);
-        if fs.is_empty() {
+        // a user function may return (something built from) an enclosing sized variable: not variable-free
+        if fs.is_empty() || (!flow && ty.is_sized()) {
             return self.leaf(ty, flow);
         }
         let f = fs[self.ch.idx(fs.len())].clone();
@@ -1026,9 +1031,11 @@ impl<'a, 'c> Gen<'a, 'c> {
         let mut fl = flow;
         let mut args = Vec::new();
         let mut named_from: Option<usize> = None;
-        for (i, (name, t, def)) in f.params.iter().enumerate() {
+        let k = f.kwonly_from.unwrap_or(f.params.len());
+        let mut all_named = false;
+        for (i, (name, t, def)) in f.params.iter().enumerate().take(k) {
             if def.is_some() && self.ch.chance(1, 3) {
-                // omit this and all later defaulted parameters unless passed by name
+                // omit this and all later defaulted positional parameters unless passed by name
                 named_from = Some(i);
                 break;
             }
@@ -1042,9 +1049,9 @@ impl<'a, 'c> Gen<'a, 'c> {
                 e
             };
             if self.ch.chance(1, 5) && !f.recursive_depth {
-                // pass this and all later ones by name
+                // pass this and all later positional-or-keyword ones by name
                 args.push(format!("{name}={e}"));
-                for (name2, t2, def2) in f.params.iter().skip(i + 1) {
+                for (name2, t2, def2) in f.params.iter().take(k).skip(i + 1) {
                     if def2.is_some() && self.ch.bool() {
                         continue;
                     }
@@ -1055,26 +1062,41 @@ impl<'a, 'c> Gen<'a, 'c> {
                     args.push(format!("{name2}={e2}"));
                 }
                 self.label("named_args");
-                return format!("{}({})", callee(&f.name), args.join(", "));
+                all_named = true;
+                break;
             }
             args.push(e);
         }
-        if let Some(from) = named_from {
-            for (name, t, _) in f.params.iter().skip(from + 1) {
-                if self.ch.bool() {
-                    let e = self.expr(t, d, fl || !t.is_sized());
-                    if t.is_sized() {
-                        fl = false;
+        if !all_named {
+            if let Some(from) = named_from {
+                for (name, t, def) in f.params.iter().take(k).skip(from + 1) {
+                    if def.is_none() || self.ch.bool() {
+                        let e = self.expr(t, d, fl || !t.is_sized());
+                        if t.is_sized() {
+                            fl = false;
+                        }
+                        args.push(format!("{name}={e}"));
                     }
-                    args.push(format!("{name}={e}"));
+                }
+                self.label("default_args");
+            } else if let Some(t) = &f.star_args {
+                let n = self.ch.idx(3);
+                for _ in 0..n {
+                    args.push(self.expr(t, d, false));
                 }
             }
-            self.label("default_args");
-        } else if let Some(t) = &f.star_args {
-            let n = self.ch.idx(3);
-            for _ in 0..n {
-                args.push(self.expr(t, d, false));
+        }
+        // keyword-only parameters: always by name; defaulted ones may be left out
+        for (name, t, def) in f.params.iter().skip(k) {
+            if def.is_some() && self.ch.bool() {
+                continue;
             }
+            let e = self.expr(t, d, fl || !t.is_sized());
+            if t.is_sized() {
+                fl = false;
+            }
+            args.push(format!("{name}={e}"));
+            self.label("kwonly_args");
         }
         format!("{}({})", callee(&f.name), args.join(", "))
     }
@@ -1645,7 +1667,7 @@ impl<'a, 'c> Gen<'a, 'c> {
         self.line(&format!("return {e}"));
         self.indent -= 1;
         self.scopes = saved;
-        let f = Func { name, params, ret: ret.clone(), star_args: None, recursive_depth: false };
+        let f = Func { name, params, ret: ret.clone(), star_args: None, recursive_depth: false, kwonly_from: None };
         self.scope().funcs.push(f.clone());
         let ncalls = 1 + self.ch.idx(2);
         for _ in 0..ncalls {
@@ -1716,6 +1738,16 @@ impl<'a, 'c> Gen<'a, 'c> {
             sig.push(format!("*{star_name}"));
             self.label("star_args");
         }
+        // bare `*`: the parameters after it are keyword-only
+        let first_plain = if recursive { 1 } else { 0 };
+        let kwonly_from = if star.is_none() && params.len() > first_plain && self.ch.chance(1, 4) {
+            let at = first_plain + self.ch.idx(params.len() - first_plain);
+            sig.insert(at, "*".to_owned());
+            self.label("kwonly_params");
+            Some(at)
+        } else {
+            None
+        };
         if params.iter().any(|p| p.2.is_some()) {
             self.label("defaults");
         }
@@ -1725,7 +1757,7 @@ impl<'a, 'c> Gen<'a, 'c> {
         } else {
             self.line(&format!("def {name}({}):", sig.join(", ")));
         }
-        let f = Func { name: name.clone(), params: params.clone(), ret: ret.clone(), star_args: star.clone(), recursive_depth: recursive };
+        let f = Func { name: name.clone(), params: params.clone(), ret: ret.clone(), star_args: star.clone(), recursive_depth: recursive, kwonly_from };
         // body
         let mut scope = Scope { kind: ScopeKind::Def, vars: Vec::new(), funcs: Vec::new(), locked: Vec::new(), loop_depth: 0, ret: Some(ret.clone()) };
         for (n, t, _) in &params {
@@ -1752,7 +1784,7 @@ impl<'a, 'c> Gen<'a, 'c> {
             self.line(&format!("return {base}"));
             self.indent -= 1;
             // recursive call with the other parameters passed through
-            let rest: Vec<String> = params.iter().skip(1).map(|p| p.0.clone()).collect();
+            let rest: Vec<String> = params.iter().enumerate().skip(1).map(|(i, p)| if kwonly_from.map(|k| i >= k).unwrap_or(false) { format!("{0}={0}", p.0) } else { p.0.clone() }).collect();
             let mut args = vec![format!("{d} - 1")];
             args.extend(rest);
             let r = self.fresh("v");
@@ -1783,7 +1815,28 @@ impl<'a, 'c> Gen<'a, 'c> {
 
     fn inject_failure(&mut self) {
         self.label("injected_failure");
-        let kind = self.ch.below(12);
+        let kind = self.ch.below(15);
+        if kind >= 12 {
+            // read of a variable that is only assigned on a path that is not taken; optionally passed
+            // straight to a one-parameter function (inlining candidate)
+            let u = self.fresh("u");
+            let cond = format!("{}({}) > {}", callee("len"), konst("[]".into()), konst("0".into()));
+            self.line(&format!("if {cond}:"));
+            self.indent += 1;
+            let e = self.fresh_expr(&Ty::Int, 2);
+            self.line(&format!("{u} = {e}"));
+            self.indent -= 1;
+            let fs: Vec<Func> = self.scopes.iter().flat_map(|s| s.funcs.iter()).filter(|f| f.params.len() == 1 && f.params[0].1 == Ty::Int && !f.recursive_depth && f.kwonly_from.is_none()).cloned().collect();
+            if kind == 14 && !fs.is_empty() {
+                let f = fs[self.ch.idx(fs.len())].clone();
+                self.label("unassigned_to_call");
+                self.line(&format!("emit({}({u}))", callee(&f.name)));
+            } else {
+                self.line(&format!("emit({u})"));
+            }
+            self.label("unassigned_read");
+            return;
+        }
         let s = match kind {
             0 => format!("emit([1, 2, 3][{}])", self.small_int_lit(3, 9)),
             1 => "emit({\"a\": 1}[\"b\"])".to_owned(),
